@@ -503,6 +503,9 @@ func (ch *channel) deriveAndSetBitrates() {
 		if trd.init.Moov.Trak.Mdia.Minf.Stbl.Stsd.GetBtrt() == nil {
 			// Estimate bitrate from the segments available
 			sdb := ch.segTimesGen.segDataBuffers[name]
+			if sdb == nil || sdb.nrItems() == 0 {
+				continue // No segments received yet for this track
+			}
 			totDur := uint64(0)
 			totSize := uint64(0)
 			var timeScale uint32 = 0
@@ -541,7 +544,7 @@ func (ch *channel) deriveAndSetFrameRates(log *slog.Logger) {
 		if trd.contentType != "video" {
 			continue
 		}
-		if sdb.nrItems() == 0 {
+		if sdb == nil || sdb.nrItems() == 0 {
 			log.Warn("Cannot derive frame rate since no segments for track", "trName", name)
 			continue
 		}
